@@ -111,6 +111,9 @@ class SymArray(np.ndarray):
             return fid.sym_write(self)
         raise Unsupported("tofile of a symbolic array to a real file")
 
+    def close(self):
+        pass
+
     def sort(self, axis=-1, **kw):
         self[...] = sym_sort(self, axis)
 
@@ -1439,6 +1442,18 @@ class _CastMeta(type):
             return cast_array(x, cls._dt)
         if isinstance(x, (list, tuple)) and has_sym(x):
             return cast_array(mk(list(x)), cls._dt)
+        if isinstance(x, str) or (isinstance(x, (list, tuple)) and x and all(isinstance(e, str) for e in x)):
+            from . import tokens
+            items = [x] if isinstance(x, str) else list(x)
+            if any(tokens.has_token(e) for e in items):
+                kind = np.dtype(cls._dt).kind
+                dec = [(tokens.decode_float(e) if kind == "f" else tokens.decode_int(e)) if tokens.has_token(e)
+                       else cls._real(e) for e in items]
+                if isinstance(x, str):
+                    return dec[0]
+                r = mk(dec)
+                r.tag = np.dtype(cls._dt)
+                return r
         return cls._real(x, *a, **k)
 
     def __instancecheck__(cls, x):
